@@ -24,6 +24,8 @@ mod bdrive;
 mod preds;
 mod storage;
 mod tables;
+mod disasm;
+mod cli;
 
 fn main() {
     util::install_panic_hook();
@@ -43,6 +45,9 @@ fn main() {
         "drive-preds" => preds::drive(rest),
         "drive-storage" => storage::drive(rest),
         "drive-tables" => tables::drive(rest),
+        "drive-disasm" => disasm::drive(rest),
+        "drive-cli" => cli::drive(rest),
+        "dump-disasm-names" => disasm::dump_names(rest),
         other => {
             eprintln!("vh: unknown subcommand {}", other);
             std::process::exit(2);
